@@ -60,9 +60,9 @@ type prow struct {
 }
 
 type crow struct {
-	ID                                   int64
+	ID                                  int64
 	Pid, P1, P2, Sib, A, B, N, Uq1, Uq2 nint
-	Tag                                  string
+	Tag                                 string
 }
 
 func (c crow) String() string {
